@@ -2026,14 +2026,20 @@ def remove_dead_ifs(source: str) -> str:
     for node in core.walk(root, (ast.ListComp, ast.SetComp, ast.GeneratorExp, ast.DictComp)):
         generators = []
         any_comprehension_modified = False
+        comprehension_is_dead = False
+        # What python still evaluates on the way to a condition that is always False
+        iterables_before = []
+        unknown_conditions_before = []
         for comprehension in node.generators:
             ifs = []
             any_if_always_false = False
+            iterables_before.append(comprehension.iter)
             for if_ in comprehension.ifs:
                 try:
                     value = core.literal_value(if_)
                 except ValueError:
                     ifs.append(if_)
+                    unknown_conditions_before.append(if_)
                     continue
 
                 if not value:
@@ -2045,8 +2051,8 @@ def remove_dead_ifs(source: str) -> str:
                 # We skip adding it to ifs, so that will be the result.
 
             if any_if_always_false:
-                any_comprehension_modified = True
-                continue
+                comprehension_is_dead = True
+                break
 
             if len(ifs) < len(comprehension.ifs):
                 replacement = ast.comprehension(
@@ -2060,15 +2066,21 @@ def remove_dead_ifs(source: str) -> str:
             else:
                 generators.append(comprehension)
 
-        if not any_comprehension_modified:
+        if not comprehension_is_dead:
+            if any_comprehension_modified:
+                yield (node, type(node)(**{**node.__dict__, "generators": generators}))
+
             continue
 
-        if generators:
-            yield (node, type(node)(**{**node.__dict__, "generators": generators}))
+        # No element is ever produced, whatever the other generators say. The iterables and the
+        # conditions before the dead one still run, and conditions of unknown value may raise.
+        safe_callables = parsing.safe_callable_names(root)
+        if unknown_conditions_before or any(
+            core.has_side_effect(iterable, safe_callables) for iterable in iterables_before
+        ):
             continue
 
-        # If all generators are dead, replace the comprehension with an empty container
-        # of the same type.
+        # If the comprehension is dead, replace it with an empty container of the same type.
 
         if isinstance(node, ast.ListComp):
             yield (node, ast.List(elts=[]))
